@@ -47,6 +47,12 @@ def make_cases(chk):
             sb = rng.choice(shp)
             tb, _ = gen.tree_steps("b", sb, n, m, rng, k=k, dec_gen=dg, term_gen=tg)
             variant = ["rr", "or", "oo", "ro"][(i // 12) % 4]
+            pre = []
+            if rng.random() < 0.3:
+                pre.append({"op": "elim", "tree": "a"})      # the left operand carries cached witnesses
+            if rng.random() < 0.15:
+                pre.append({"op": "elim", "tree": "b"})
+            tb = tb + pre
             steps += tb + [{"op": "export", "tree": "a"}, {"op": "export", "tree": "b"},
                            {"op": "binop", "name": "r", "a": "a", "b": "b", "binop": op, "variant": variant},
                            {"op": "export", "tree": "r"}, {"op": "export", "tree": "a"}, {"op": "export", "tree": "b"}]
